@@ -80,6 +80,13 @@ Section C07.
     destruct (ite_step_spec nhash2 khash2 bmask2 cmask2 smask2 capacity2 cap_ok2 _ _ _ _ _ _ _ _ _ _ _ _ _ HR2 Lf2 Lg2 Lh2 DF2 DG2 DH2 S2) as (r2 & E2 & _ & _ & D2).
     exists r, r2, (fun e => if F e then G e else H e). auto.
   Qed.
+  (* the general form, for EVERY operation: if a result handle r1 is live in a state and an operation performed in any later
+     state of the manager (any cache contents in between) returns a handle denoting the same function, it returns r1 itself *)
+  Theorem C07_same_function_same_handle mr a r1 r2 D : reachable mr -> liveh mr a r1 -> denotes mr r1 D -> denotes mr r2 D -> r2 = r1.
+  Proof.
+    intros HR _ (t1 & V1 & S1) (t2 & V2 & S2). destruct (reachable_good nhash khash _ _ _ _ cap_ok _ HR) as (HI & _).
+    apply (handle_eq_iff _ _ _ _ _ HI V2 V1). intro e. now rewrite S1, S2.
+  Qed.
 End C07.
 
 Print Assumptions C07_op_cache_entries_true.
@@ -87,3 +94,4 @@ Print Assumptions C07_size_cache_entries_true.
 Print Assumptions C07_gc_empties.
 Print Assumptions C07_repeat_same_handle.
 Print Assumptions C07_function_independent_of_configuration.
+Print Assumptions C07_same_function_same_handle.
